@@ -21,6 +21,8 @@ KNOWN_COUNTS = {(3, 0): 20, (4, 0): 954, (5, 0): 88680, (3, None): 60, (4, None)
 
 def sig_of(err, prefix=""):
     parts = [str(err[0])]
+    if str(err[0]).endswith("exception") and len(err) > 1:
+        return prefix + str(err[0]) + ":" + str(err[1])
     for x in err[1:3]:
         if isinstance(x, str) and x in DISCR:
             parts.append(x)
